@@ -27,13 +27,13 @@ func (*C16) Name() string { return "C16" }
 type dataGhost struct {
 	production bool              // the module's own (production) ID hasher is in use
 	id         map[string]string // iri -> id (hex) as first observed in state
-	anchor     map[string]int64  // iri -> first anchor time (unix nanos)
-	attest     map[string]int64  // iri|attestor -> first attestation time
+	anchor     map[string]string  // iri -> first anchor time (unix nanos)
+	attest     map[string]string  // iri|attestor -> first attestation time
 	reg        map[string]bool   // resolver id|iri
 }
 
 func (g *dataGhost) Clone() explore.Ghost {
-	n := &dataGhost{production: g.production, id: map[string]string{}, anchor: map[string]int64{}, attest: map[string]int64{}, reg: map[string]bool{}}
+	n := &dataGhost{production: g.production, id: map[string]string{}, anchor: map[string]string{}, attest: map[string]string{}, reg: map[string]bool{}}
 	for k, v := range g.id {
 		n.id[k] = v
 	}
@@ -55,10 +55,10 @@ func (g *dataGhost) Digest() []byte {
 		ks = append(ks, "i:"+k+"="+v)
 	}
 	for k, v := range g.anchor {
-		ks = append(ks, fmt.Sprintf("a:%s=%d", k, v))
+		ks = append(ks, fmt.Sprintf("a:%s=%s", k, v))
 	}
 	for k, v := range g.attest {
-		ks = append(ks, fmt.Sprintf("t:%s=%d", k, v))
+		ks = append(ks, fmt.Sprintf("t:%s=%s", k, v))
 	}
 	for k := range g.reg {
 		ks = append(ks, "r:"+k)
@@ -68,17 +68,17 @@ func (g *dataGhost) Digest() []byte {
 }
 
 func (m *C16) NewGhost(c *chain.Chain, _ sdk.Context, s *chain.Snapshot) explore.Ghost {
-	g := &dataGhost{production: c != nil && c.Opts.Hasher == nil, id: map[string]string{}, anchor: map[string]int64{}, attest: map[string]int64{}, reg: map[string]bool{}}
+	g := &dataGhost{production: c != nil && c.Opts.Hasher == nil, id: map[string]string{}, anchor: map[string]string{}, attest: map[string]string{}, reg: map[string]bool{}}
 	iriOf := map[string]string{}
 	for _, d := range s.DataIDs {
 		g.id[d.Iri] = hex.EncodeToString(d.Id)
 		iriOf[string(d.Id)] = d.Iri
 	}
 	for _, a := range s.DataAnchors {
-		g.anchor[iriOf[string(a.Id)]] = a.Timestamp.AsTime().UnixNano()
+		g.anchor[iriOf[string(a.Id)]] = pbInstant(a.Timestamp)
 	}
 	for _, a := range s.DataAttestors {
-		g.attest[iriOf[string(a.Id)]+"|"+addrStr(a.Attestor)] = a.Timestamp.AsTime().UnixNano()
+		g.attest[iriOf[string(a.Id)]+"|"+addrStr(a.Attestor)] = pbInstant(a.Timestamp)
 	}
 	for _, r := range s.DataResolvers {
 		g.reg[fmt.Sprintf("%d|%s", r.ResolverId, iriOf[string(r.Id)])] = true
@@ -88,11 +88,22 @@ func (m *C16) NewGhost(c *chain.Chain, _ sdk.Context, s *chain.Snapshot) explore
 
 type irier interface{ ToIRI() (string, error) }
 
-func gogoNanos(t *gogotypes.Timestamp) int64 {
+// Instants are kept as "seconds.nanoseconds" strings: int64 nanoseconds (time.UnixNano) wrap outside
+// 1677..2262, which would make a wrapped stored timestamp look equal to the wrapped expectation.
+func instant(t time.Time) string { return fmt.Sprintf("%d.%09d", t.Unix(), t.Nanosecond()) }
+
+func pbInstant(t interface {
+	GetSeconds() int64
+	GetNanos() int32
+}) string {
+	return fmt.Sprintf("%d.%09d", t.GetSeconds(), t.GetNanos())
+}
+
+func gogoNanos(t *gogotypes.Timestamp) string {
 	if t == nil {
-		return -1
+		return "nil"
 	}
-	return time.Unix(t.Seconds, int64(t.Nanos)).UnixNano()
+	return fmt.Sprintf("%d.%09d", t.Seconds, t.Nanos)
 }
 
 func (m *C16) OnStep(gh explore.Ghost, st *explore.Step) []V {
@@ -101,7 +112,7 @@ func (m *C16) OnStep(gh explore.Ghost, st *explore.Step) []V {
 		return nil
 	}
 	var out []V
-	now := st.Pre.Time.UnixNano()
+	now := instant(st.Pre.Time)
 	bad := func(kind, detail string) {
 		out = append(out, V{Kind: "C16/" + kind, Detail: detail + " [" + st.Act.Label + "]"})
 	}
@@ -131,7 +142,7 @@ func (m *C16) OnStep(gh explore.Ghost, st *explore.Step) []V {
 			bad("anchor-response-iri", fmt.Sprintf("response %q, content hash maps to %q", r.Iri, iri))
 		}
 		if gogoNanos(r.Timestamp) != g.anchor[iri] {
-			bad("anchor-response-timestamp-not-first-anchor-time", fmt.Sprintf("response %d, first anchored %d", gogoNanos(r.Timestamp), g.anchor[iri]))
+			bad("anchor-response-timestamp-not-first-anchor-time", fmt.Sprintf("response %s, first anchored %s", gogoNanos(r.Timestamp), g.anchor[iri]))
 		}
 	case *data.MsgAttest:
 		var newIRIs []string
@@ -235,8 +246,8 @@ func (m *C16) OnState(gh explore.Ghost, _ *chain.Chain, _ sdk.Context, s *chain.
 		anchored[iri] = true
 		if want, ok := g.anchor[iri]; !ok {
 			bad("anchor-without-anchoring-message", iri)
-		} else if a.Timestamp.AsTime().UnixNano() != want {
-			bad("anchor-timestamp-changed", fmt.Sprintf("%s: stored %d, first anchored %d", iri, a.Timestamp.AsTime().UnixNano(), want))
+		} else if pbInstant(a.Timestamp) != want {
+			bad("anchor-timestamp-changed", fmt.Sprintf("%s: stored %s, first anchored %s", iri, pbInstant(a.Timestamp), want))
 		}
 	}
 	for iri := range g.anchor {
@@ -250,7 +261,7 @@ func (m *C16) OnState(gh explore.Ghost, _ *chain.Chain, _ sdk.Context, s *chain.
 		att[k] = true
 		if want, ok := g.attest[k]; !ok {
 			bad("attestation-without-message", k)
-		} else if a.Timestamp.AsTime().UnixNano() != want {
+		} else if pbInstant(a.Timestamp) != want {
 			bad("attestation-timestamp-changed", k)
 		}
 	}
